@@ -349,4 +349,9 @@ def run(repo: Repo, rep: Report, tier: str) -> None:
     from .memo import memo_rule
 
     memo_rule(repo, rep, "C12.R8")
+    from .share import share_rules
+    from .c06 import mask_rule
 
+    share_rules(repo, rep, tier, "c10", {"C10.R1": "C12.R9", "C10.R2": "C12.R10", "C10.R3": "C12.R11"},
+                "explicit enum / flag values are computed by the expression evaluator: a mis-evaluated value renumbers every following member")
+    mask_rule(repo, rep, "C12.R12")
